@@ -3,6 +3,17 @@
 // Contracts for /verif (build tag "verif"): //@ comment blocks and pure ghost functions only.
 package amd64
 
+import (
+	"github.com/tetratelabs/wazero/internal/engine/wazevo/backend"
+	"github.com/tetratelabs/wazero/internal/engine/wazevo/backend/regalloc"
+	"github.com/tetratelabs/wazero/internal/engine/wazevo/ssa"
+)
+
+var (
+	_ regalloc.VReg
+	_ = backend.ABIArgKindStack
+)
+
 // constPoolClean: no per-function constant-pool slot is remembered (each index is looked up lazily and
 // cached; a stale index would make a later function read another function's constant).
 func constPoolClean(m *machine) bool {
@@ -22,4 +33,75 @@ func constPoolClean(m *machine) bool {
 //@ func (m *machine) Reset()
 //@   ensures[constant-pool-and-all-cached-indices-forgotten] constPoolClean(m)
 //@   ensures[per-function-state-cleared] m.spillSlotSize == 0 && m.maxRequiredStackSizeForCalls == 0 && m.jmpTableTargetsNext == 0 && len(m.pendingInstructions) == 0 && !m.regAllocStarted && !m.stackBoundsCheckDisabled
+//@   nosafety
+
+// ---- C08: values cross the Go <-> guest boundary unchanged. The entry preamble (Go calls an exported
+// function) copies every parameter from the Go []uint64 into its register or stack slot, and every result
+// back, with a move of exactly the width of the value's type (a narrower move truncates the value).
+// movBytes: the number of bytes a move instruction transfers (0: not one of the moves used here).
+func movBytes(i *instruction) int {
+	switch i.kind {
+	case movRM:
+		return int(i.u1)
+	case mov64MR:
+		return 8
+	case movzxRmR:
+		if extMode(i.u1) == extModeLQ {
+			return 4
+		}
+		return 0
+	case xmmMovRM, xmmUnaryRmR:
+		switch sseOpcode(i.u1) {
+		case sseOpcodeMovss:
+			return 4
+		case sseOpcodeMovsd:
+			return 8
+		case sseOpcodeMovdqu:
+			return 16
+		}
+	}
+	return 0
+}
+
+func typeBytes(t ssa.Type) int {
+	switch t {
+	case ssa.TypeI32, ssa.TypeF32:
+		return 4
+	case ssa.TypeI64, ssa.TypeF64:
+		return 8
+	case ssa.TypeV128:
+		return 16
+	}
+	return -1
+}
+
+func isStoreInstr(i *instruction) bool { return i.kind == movRM || i.kind == xmmMovRM }
+func isLoadInstr(i *instruction) bool {
+	return i.kind == mov64MR || i.kind == movzxRmR || i.kind == xmmUnaryRmR
+}
+func scalarOrVec(t ssa.Type) bool {
+	return t == ssa.TypeI32 || t == ssa.TypeI64 || t == ssa.TypeF32 || t == ssa.TypeF64 || t == ssa.TypeV128
+}
+
+//@ prop C08
+// (pool allocation of instructions and address modes: assumed to hand out fresh zeroed objects)
+//@ func (m *machine) allocateInstr() *instruction
+//@   trusted
+//@   ensures r0 != nil && verif_fresh(r0)
+//@   modifies nothing
+//@ func (m *machine) newAmodeImmReg(imm32 uint32, base regalloc.VReg) *amode
+//@   trusted
+//@   ensures r0 != nil && verif_fresh(r0) && r0.imm32 == imm32 && r0.base == base
+//@   modifies nothing
+
+//@ func (m *machine) goEntryPreamblePassArg(cur *instruction, paramSlicePtr regalloc.VReg, offsetInParamSlice uint32, arg *backend.ABIArg) *instruction
+//@   requires cur != nil && arg != nil && scalarOrVec(arg.Type)
+//@   ensures[register-parameter-loaded-at-full-width] arg.Kind != backend.ABIArgKindStack ==> isLoadInstr(r0) && movBytes(r0) == typeBytes(arg.Type) && r0.prev == cur
+//@   ensures[stack-parameter-loaded-and-stored-at-full-width] arg.Kind == backend.ABIArgKindStack ==> isStoreInstr(r0) && movBytes(r0) == typeBytes(arg.Type) && r0.prev != nil && isLoadInstr(r0.prev) && movBytes(r0.prev) == typeBytes(arg.Type) && r0.prev.prev == cur
+//@   nosafety
+
+//@ func (m *machine) goEntryPreamblePassResult(cur *instruction, resultSlicePtr regalloc.VReg, offsetInResultSlice uint32, result *backend.ABIArg, resultStackSlotBeginOffset uint32) *instruction
+//@   requires cur != nil && result != nil && scalarOrVec(result.Type)
+//@   ensures[result-stored-at-full-width] isStoreInstr(r0) && movBytes(r0) == typeBytes(result.Type)
+//@   ensures[stack-result-loaded-at-full-width] result.Kind == backend.ABIArgKindStack ==> r0.prev != nil && isLoadInstr(r0.prev) && movBytes(r0.prev) == typeBytes(result.Type) && r0.prev.prev == cur
 //@   nosafety
